@@ -132,15 +132,78 @@ def _task(args):
             "states": vse.states, "transitions": vse.transitions}
 
 
+def special_vector(mm, name):
+    props = mm.props_of(ref(name))
+    always = mm.envelopes()[name]["always"] if name in mm.envelopes() else ()
+    return tuple(sorted((p["name"], bool(p["type"]["kind"] == "stringLiteral" or admits_null(p["type"]) or p["name"] in always)) for p in props))
+
+
+def collision_pairs(mm, roots):
+    """Ordered pairs of classes that are forced to collide in anything keyed more coarsely than the class:
+    (1) identical attribute-name sets but different always-written vectors; (2) for every attribute name that
+    is always-written in one class and omittable in another, the first class of each kind."""
+    vec = {n: special_vector(mm, n) for n in roots}
+    pairs = []
+    by_names = {}
+    for n, v in vec.items():
+        by_names.setdefault(tuple(k for k, _ in v), []).append(n)
+    for names, group in by_names.items():
+        if len(group) < 2 or not names:
+            continue
+        seen_vecs = {}
+        for n in group:
+            seen_vecs.setdefault(vec[n], n)
+        reps = list(seen_vecs.values())
+        for a in reps:
+            for b in reps:
+                if a != b:
+                    pairs.append((a, b, "same attribute names %s" % (list(names),)))
+    first = {}
+    for n, v in vec.items():
+        for k, sp in v:
+            first.setdefault((k, sp), n)
+    for (k, sp), n in sorted(first.items()):
+        other = first.get((k, not sp))
+        if sp and other and (n, other) not in [(a, b) for a, b, _ in pairs]:
+            pairs.append((n, other, "attribute %s always written in %s, omittable in %s" % (k, n, other)))
+            pairs.append((other, n, "attribute %s omittable in %s, always written in %s" % (k, other, n)))
+    return pairs
+
+
+def _pair_task(args):
+    """Freshly forked from the pristine parent (maxtasksperchild=1): class A is used first, then class B."""
+    a, b, why = args
+    ra = _task((a, False))
+    rb = _task((b, False))
+    out = []
+    for r, first in ((rb, a), (ra, None)):
+        for v in r["viols"]:
+            if first:
+                v.what = "after %s was (de)serialised first in the process (%s): %s" % (first, why, v.what)
+                v.replay["history"] = [first, r["root"]]
+            out.append(v)
+    return {"pair": (a, b), "execs": ra["execs"] + rb["execs"], "viols": out}
+
+
 def run(ctx):
     mm = get_mm()
     res = Result()
     lsp = impl.lsp()
     impl.converter()
     roots = [n for k, n in mm.roots(True, False, True) if hasattr(lsp, n)]
+    # collision histories first, each in a process forked from this pristine one
+    pairs = collision_pairs(mm, roots)
+    with mp.get_context("fork").Pool(ctx.workers, maxtasksperchild=1) as pool:
+        presults = pool.map(_pair_task, pairs, chunksize=1)
+    pair_execs = 0
+    for pr in presults:
+        pair_execs += pr["execs"]
+        for v in pr["viols"]:
+            res.add(v)
     with mp.get_context("fork").Pool(ctx.workers) as pool:
         results = pool.map(_task, [(n, ctx.thorough) for n in roots], chunksize=2)
-    execs = states = transitions = 0
+    execs = pair_execs
+    states = transitions = 0
     attrs_total = both = 0
     not_both = []
     for r in results:
@@ -162,7 +225,9 @@ def run(ctx):
         "distinct_nontrivial": attrs_total,
         "rule": "every attribute of every structure and envelope class x {unset, set} x surrounding value in {cost<=1 neighbourhood of the "
                 "minimal value, maximal value%s}; serialisation through public constructors, parse with the property absent; "
-                "distinct_nontrivial = attributes toggled" % (" and its cost-1 neighbours" if ctx.thorough else ""),
+                "distinct_nontrivial = attributes toggled; plus collision histories: ordered pairs of classes that share attribute names but differ "
+                "in which of them are always written, each pair in a freshly forked process (first class used first)" % (" and its cost-1 neighbours" if ctx.thorough else ""),
+        "collision_histories": len(pairs), "collision_history_samples": [list(p) for p in pairs[:4]],
         "classes": len(roots), "attributes": attrs_total, "attributes_toggled_both_ways": both,
         "attributes_never_set": not_both[:20],
         "exhaustive": True,
